@@ -394,8 +394,11 @@ func validatePageSettings(settings *PageSettings) error {
 		const minSize = 12.7  // 0.5英寸
 		const maxSize = 558.8 // 22英寸
 
-		if settings.CustomWidth < minSize || settings.CustomWidth > maxSize ||
-			settings.CustomHeight < minSize || settings.CustomHeight > maxSize {
+		// 尺寸以整数 twips 存储，读回的边界值会有不足一个 twip 的舍入误差（12.7 读回 12.69999），
+		// 不留容差的话，设置边界尺寸后所有“读取-修改-写回”式的设置函数都会失败
+		const eps = 0.02
+		if settings.CustomWidth < minSize-eps || settings.CustomWidth > maxSize+eps ||
+			settings.CustomHeight < minSize-eps || settings.CustomHeight > maxSize+eps {
 			return fmt.Errorf("页面尺寸必须在%.1f-%.1fmm范围内", minSize, maxSize)
 		}
 	}
